@@ -289,6 +289,9 @@ def announcement(chk: Check) -> None:
 
 def subscriptions(chk: Check) -> None:
     prog = chk.prog
+    # "a terminated process no longer receives messages": both un-subscriptions are cleanups, each must run even if the other fails (shared with C02)
+    from .c02 import close_once
+    close_once(chk)
     init = prog.func('processes.Process.init')
     cfg = cfg_of(init)
     for add, rem, handler in (('add_rpc_subscriber', 'remove_rpc_subscriber', 'self.message_receive'), ('add_broadcast_subscriber', 'remove_broadcast_subscriber', 'self.broadcast_receive')):
